@@ -20,13 +20,15 @@ pub fn get() -> FunctionDefinitions {
                 match self.0.apply(value, 0) {
                     Some(JsonValue::Array(list)) => {
                         let mut str = String::new();
+                        let mut first = true;
                         for t in list {
                             let t: Result<String, _> = t.try_into();
                             match t {
                                 Ok(to_add) => {
-                                    if !str.is_empty() {
+                                    if !first {
                                         str.push_str(sepetator.as_str());
                                     }
+                                    first = false;
                                     str.push_str(to_add.as_str());
                                 }
                                 Err(_) => {
